@@ -3,18 +3,33 @@
 package mdns
 
 import (
+	"sync"
+	"time"
+
 	"github.com/enbility/ship-go/api"
 	"github.com/enbility/ship-go/zzvrt"
 )
 
 type vOrderReport struct {
+	mu      sync.Mutex
 	lastLen int
 	reports int
 }
 
+// the receiver (the hub) takes time: it hands the list to the application as its last step
 func (r *vOrderReport) ReportMdnsEntries(entries map[string]*api.MdnsEntry, newEntries bool) {
+	r.mu.Lock()
 	r.reports++
-	r.lastLen = len(entries)
+	first := r.reports == 1
+	r.mu.Unlock()
+	n := len(entries)
+	zzvrt.Yield() // a scheduling point inside the delivery: deliveries of different reports may overlap here
+	if !zzvrt.Symbolic() && first {
+		time.Sleep(20 * time.Millisecond) // native replay: the first delivery is the slow one
+	}
+	r.mu.Lock()
+	r.lastLen = n
+	r.mu.Unlock()
 }
 
 func c17Elements(ski string) map[string]string {
@@ -29,9 +44,24 @@ func H_C17_Order() {
 	rep := &vOrderReport{}
 	m.report = rep
 	m.processMdnsEntry(c17Elements("ski-one"), "n1", "h1", nil, 1, false)
+	if !zzvrt.Symbolic() {
+		// native replay: let the first report get in flight before the next event arrives
+		for i := 0; i < 100; i++ {
+			rep.mu.Lock()
+			n := rep.reports
+			rep.mu.Unlock()
+			if n >= 1 {
+				break
+			}
+			time.Sleep(time.Millisecond)
+		}
+	}
 	m.processMdnsEntry(c17Elements("ski-two"), "n2", "h2", nil, 2, false)
 	zzvrt.WaitQuiescent()
-	zzvrt.Assert(rep.reports >= 1, "C17.no-report")
-	zzvrt.Assert(rep.lastLen == 2, "C17.older-snapshot-delivered-last")
+	rep.mu.Lock()
+	reports, lastLen := rep.reports, rep.lastLen
+	rep.mu.Unlock()
+	zzvrt.Assert(reports >= 1, "C17.no-report")
+	zzvrt.Assert(lastLen == 2, "C17.older-snapshot-delivered-last")
 	zzvrt.Cover("c17.end")
 }
